@@ -119,6 +119,13 @@ Section Statements.
     let s2 := locate (s_fs s1) locals None ss2 evs2 in
     s_l s2 = LDone (ROk t u) /\ s_log s2 = [] /\ s_fs s2 = s_fs s1.
   Proof. exact (rehit_same T parse early p). Qed.
+
+  (* Requests go to the servers in the configured order, at most one per server, and none
+     after the lookup has finished (the log is map s_id of a prefix of the server list). *)
+  Theorem c16_requests_in_order_partial : forall f ss evs,
+    let s := run (net_start f ss) evs in
+    exists dn rest, ss = dn ++ rest /\ s_log s = map s_id dn.
+  Proof. exact (net_requests_prefix T parse early p). Qed.
 End Statements.
 
 Print Assumptions c16_commit_only_after_ok_partial.
@@ -131,6 +138,7 @@ Print Assumptions c16_locate_no_stray_tmp_partial.
 Print Assumptions c16_locate_failed_leaves_no_entry_partial.
 Print Assumptions c16_only_notfound_cascades_partial.
 Print Assumptions c16_rehit_same_partial.
+Print Assumptions c16_requests_in_order_partial.
 
 (* ---- non-vacuity: concrete runs with the driver's line recogniser ---- *)
 Definition ex_body1 : bytes := [77; 79; 68; 85; 76; 69; 32; 97; 32; 98; 32; 49; 32; 99; 10].   (* "MODULE a b 1 c\n" *)
